@@ -62,6 +62,47 @@ Proof.
 Qed.
 Print Assumptions C43_derive_total.
 
+(** Stacked hooks WithHook(…WithHook(WithHook(c0, h_1), h_2)…, h_n): every hook of the stack sees each request exactly
+    once, outermost first, then the underlying client — by induction over the stack depth.  (Each hook is assumed to
+    pass the request on once to the client it is handed.) *)
+Theorem C43_stack_once : forall ls c0 m, In m client_requests ->
+  scall hook_table (stack ls c0) m = Some (map (fun l => SHook l m) ls ++ [SInner m c0]).
+Proof. exact (stack_once hook_table gen_table_ok). Qed.
+Print Assumptions C43_stack_once.
+
+(** … also on every client derived from the stack through any chain of Nodes / Dedicate / Dedicated: the derived
+    client is again a stack of all the hooks, over the derived underlying client *)
+Theorem C43_stack_all_derived : forall en p ls c0 x,
+  sderive hook_table en (stack ls c0) p = Some x ->
+  (exists j, x = inl (stack ls j) /\
+     forall m, In m client_requests -> scall hook_table (stack ls j) m = Some (map (fun l => SHook l m) ls ++ [SInner m j])) \/
+  (exists j, x = inr (dstack ls j) /\
+     forall m, In m dedicated_requests -> sdcall hook_table (dstack ls j) m = Some (map (fun l => SHook l m) ls ++ [SInner m j])).
+Proof.
+  intros en p ls c0 x H.
+  destruct (stack_derive hook_table gen_table_ok en p ls c0 x H) as [[j ->]|[j ->]].
+  - left. exists j. split; [reflexivity|]. intros m Hm. now apply (stack_once hook_table gen_table_ok).
+  - right. exists j. split; [reflexivity|]. intros m Hm. now apply (dstack_once hook_table gen_table_ok).
+Qed.
+Print Assumptions C43_stack_all_derived.
+
+Theorem C43_stack_derivations : forall en ls c0,
+  sdedicate hook_table en mDedicate (stack ls c0) = Some (dstack ls (env_dedicate en c0)) /\
+  sdedicate hook_table en mDedicated (stack ls c0) = Some (dstack ls (env_dedicate en c0)) /\
+  snodes hook_table en (stack ls c0) = Some (map (stack ls) (env_nodes en c0)).
+Proof.
+  intros en ls c0. destruct (stack_dedicate hook_table gen_table_ok en ls c0) as [A B].
+  repeat split; try assumption. apply (stack_nodes hook_table gen_table_ok).
+Qed.
+Print Assumptions C43_stack_derivations.
+
+Example C43_nonvacuous_stack :
+  match sderive hook_table test_env (stack [3; 2; 1] 7) [DNode 0; DDedicated] with
+  | Some (inr d) => sdcall hook_table d mDo
+  | _ => None
+  end = Some [SHook 3 mDo; SHook 2 mDo; SHook 1 mDo; SInner mDo 721].
+Proof. vm_compute. reflexivity. Qed.
+
 (** non-vacuity: Do on a node's dedicated client of a hooked client *)
 Example C43_nonvacuous :
   match derive hook_table test_env (HC 7) [DNode 1; DDedicate] with
